@@ -1330,8 +1330,17 @@ class CompositeEnvelope:
         product_states = [
             p for p in self.states if any(so in p.state_objs for so in states)
         ]
-        assert len(product_states) > 0, "No product state found"
         ps: ProductState
+        if len(product_states) == 0:
+            # The states are stored outside of the product states of this
+            # composite envelope (on their own or in their envelope)
+            if len(states) == 1:
+                return states[0].trace_out()
+            self.combine(*states)
+            product_states = [
+                p for p in self.states if any(so in p.state_objs for so in states)
+            ]
+        assert len(product_states) > 0, "No product state found"
         if len(product_states) > 1:
             all_states = [s for s in states]
             for p in product_states:
